@@ -62,7 +62,9 @@ func (f *TField) Key() string {
 }
 
 type TStruct struct {
-	Name   string
+	Name string
+	// File: "" = declared in the main IDL file, "inc" = declared in the included file inc.thrift
+	File   string
 	Fields []*TField
 	// RawFields are extra IDL field lines the value model does not know (e.g. the thrift request base)
 	RawFields []string
@@ -134,7 +136,10 @@ type TFieldVal struct {
 	UnknownRaw  []byte // Thrift side: a complete encoded field (header + value) the schema does not know
 }
 
-func typeName(t *TType) string {
+func typeName(t *TType) string { return typeNameIn(t, "*") }
+
+// typeNameIn spells a type as seen from an IDL file: structs of another file carry its reference name.
+func typeNameIn(t *TType, file string) string {
 	switch t.Kind {
 	case tBOOL:
 		return "bool"
@@ -154,13 +159,16 @@ func typeName(t *TType) string {
 		}
 		return "string"
 	case tSTRUCT:
+		if file != "*" && t.St.File != file && t.St.File != "" {
+			return t.St.File + "." + t.St.Name
+		}
 		return t.St.Name
 	case tMAP:
-		return "map<" + typeName(t.Key) + "," + typeName(t.Elem) + ">"
+		return "map<" + typeNameIn(t.Key, file) + "," + typeNameIn(t.Elem, file) + ">"
 	case tSET:
-		return "set<" + typeName(t.Elem) + ">"
+		return "set<" + typeNameIn(t.Elem, file) + ">"
 	case tLIST:
-		return "list<" + typeName(t.Elem) + ">"
+		return "list<" + typeNameIn(t.Elem, file) + ">"
 	}
 	return "?"
 }
@@ -192,6 +200,10 @@ type tgenOpts struct {
 	// SharedNames: field names are drawn from a small pool, so that different structs declare the same name
 	// under different ids
 	SharedNames bool
+	// SplitFiles: the first structs of the schema are declared in an included file (referenced as inc.Name
+	// from the main file, by their bare names inside it); sometimes the main file declares a struct of its
+	// own under the same name as an included one
+	SplitFiles bool
 	// ForceSelf: the root struct gets an optional field of its own type (deep nesting worlds)
 	ForceSelf bool
 	// QueryAnno: some scalar / string fields carry (api.query = "q_<name>") - only meaningful for
@@ -465,6 +477,44 @@ func genSchema(t *simrt.Tape, o tgenOpts) *TSchema {
 			root.Fields = append(root.Fields, &TField{ID: maxID + 1, Name: g.ident("self"), Req: reqOptional, T: &TType{Kind: tSTRUCT, St: root}})
 		}
 	}
+	if o.SplitFiles && !o.ConstDefaults && len(g.sch.Structs) >= 2 {
+		k := 1 + g.t.Intn(len(g.sch.Structs)-1, "split.k") // a prefix of the declaration order is closed under references
+		for _, st := range g.sch.Structs[:k] {
+			st.File = "inc"
+		}
+		if g.t.Chance(1, 2, "split.homonym") {
+			// a struct of the included file that another struct of that file refers to by its bare name ...
+			var x *TStruct
+			for _, y := range g.sch.Structs[:k] {
+				for _, f := range y.Fields {
+					if f.T.Kind == tSTRUCT && f.T.St != y && f.T.St.File == "inc" {
+						x = f.T.St
+					}
+				}
+			}
+			if x != nil {
+				// ... and a different struct of the same name in the main file, used by the first field of the root
+				sh := &TStruct{Name: x.Name, Fields: []*TField{{ID: 1, Name: g.ident("hm"), T: &TType{Kind: tI64}}, {ID: 2, Name: g.ident("hm"), T: &TType{Kind: tSTRING}}}}
+				maxID := 0
+				for _, f := range root.Fields {
+					if f.ID > maxID {
+						maxID = f.ID
+					}
+				}
+				if maxID < 32767 {
+					nf := &TField{ID: maxID + 1, Name: g.ident("hm"), Req: reqOptional, T: &TType{Kind: tSTRUCT, St: sh}}
+					root.Fields = append([]*TField{nf}, root.Fields...)
+					all := append([]*TStruct{}, g.sch.Structs[:k]...)
+					all = append(all, sh)
+					g.sch.Structs = append(all, g.sch.Structs[k:]...)
+				}
+			}
+		}
+		var ib strings.Builder
+		ib.WriteString("namespace go inc\n\n")
+		renderStructs(&ib, g.sch.Structs, "inc")
+		g.sch.AddInclude("inc.thrift", ib.String())
+	}
 	if len(g.inc) > 0 {
 		g.sch.AddInclude("defs.thrift", "namespace go defs\n\n"+strings.Join(g.inc, "\n")+"\n")
 	}
@@ -489,18 +539,13 @@ func renderDefault(v *TVal) string {
 	return ""
 }
 
-func renderIDL(s *TSchema) string {
-	var sb strings.Builder
-	sb.WriteString(s.IncludeText)
-	sb.WriteString("namespace go sim\n\n")
-	for _, c := range s.Consts {
-		sb.WriteString(c + "\n")
-	}
-	if len(s.Consts) > 0 {
-		sb.WriteString("\n")
-	}
-	for _, st := range s.Structs {
-		fmt.Fprintf(&sb, "struct %s {\n", st.Name)
+// renderStructs writes the structs declared in file.
+func renderStructs(sb *strings.Builder, structs []*TStruct, file string) {
+	for _, st := range structs {
+		if st.File != file {
+			continue
+		}
+		fmt.Fprintf(sb, "struct %s {\n", st.Name)
 		for _, f := range st.Fields {
 			req := ""
 			switch f.Req {
@@ -516,13 +561,26 @@ func renderIDL(s *TSchema) string {
 					def = " = " + f.DefText
 				}
 			}
-			fmt.Fprintf(&sb, "  %d: %s%s %s%s%s\n", f.ID, req, typeName(f.T), f.Name, def, f.Anno)
+			fmt.Fprintf(sb, "  %d: %s%s %s%s%s\n", f.ID, req, typeNameIn(f.T, file), f.Name, def, f.Anno)
 		}
 		for _, rf := range st.RawFields {
 			sb.WriteString("  " + rf + "\n")
 		}
 		sb.WriteString("}\n\n")
 	}
+}
+
+func renderIDL(s *TSchema) string {
+	var sb strings.Builder
+	sb.WriteString(s.IncludeText)
+	sb.WriteString("namespace go sim\n\n")
+	for _, c := range s.Consts {
+		sb.WriteString(c + "\n")
+	}
+	if len(s.Consts) > 0 {
+		sb.WriteString("\n")
+	}
+	renderStructs(&sb, s.Structs, "")
 	root := s.Root.St.Name
 	sb.WriteString("exception SimExc {\n  1: i32 code\n  2: string msg\n}\n\n")
 	exc := s.ExcID
